@@ -196,7 +196,7 @@ def emulate_pkg(pkg, n_qubits=0, seed=1, shots=1, sim="statevector"):
     try:
         try:
             with quiet():
-                inst = EmulatorBuilder().with_build_dir(Path(d)).build(pkg, n_qubits=n_qubits)
+                inst = EmulatorBuilder().with_build_dir(Path(d)).build(pkg, n_qubits=max(1, n_qubits))
         except BaseException as e:  # noqa: BLE001
             if isinstance(e, (KeyboardInterrupt, SystemExit)):
                 raise
@@ -213,7 +213,10 @@ def emulate_pkg(pkg, n_qubits=0, seed=1, shots=1, sim="statevector"):
             if e.failing_shot is not None:
                 stream = [(t, norm_value(v)) for t, v in e.failing_shot.entries]
             under = e.underlying_exception
-            return Outcome("panic", stream=stream, message=str(under), exc=e,
+            if "Panic (#" not in str(under) and type(under).__name__ != "SelenePanicError":
+                return Outcome("unsupported", message=f"emulator error (not a program panic): {str(under)[:1500]}",
+                               exc=e, title="selene-run")
+            return Outcome("panic", stream=stream, message=str(under).split("\n")[0], exc=e,
                            extra={"completed": [[(t, norm_value(v)) for t, v in s.entries]
                                                 for s in e.completed_shots.results]})
         except BaseException as e:  # noqa: BLE001
